@@ -151,6 +151,14 @@ def check_hh_phi(phi1: float, phi2: float, none1: bool, none2: bool) -> bool:
     return ok
 
 
+def check_twin_refusal_reachable(w1: int, d1: int, w2: int, d2: int) -> bool:
+    """
+    pre: 1 <= w1 <= 1000000 and 1 <= d1 <= 64 and 1 <= w2 <= 1000000 and 1 <= d2 <= 64
+    post: _ == True
+    """
+    raised, same, n, first = _try_merge(CM.CountMinLinear(w1, d1), CM.CountMinLinear(w2, d2))
+    return not raised      # false claim: "merge never refuses" -- must be refuted
+
 # ---------------------------------------------------------------------------------------------- real-library replays
 def _real_pair(mk_a, mk_b, compatible, fill):
     try:
